@@ -25,10 +25,10 @@ def jobs(tier, seed):
         j["mod"] = "fblock"
     F = []
     if tier == "quick":
-        # truncation points of each file are split into 6 ranges explored by parallel jobs
+        # truncation points of each file are split into 8 ranges explored by parallel jobs
         for ver, feat in ((fmfile.SSE, fmfile.SKIN), (fmfile.FO4, fmfile.EXTRA | fmfile.SEGMENTS | fmfile.SKIN), (fmfile.OB, fmfile.SKIN | fmfile.COLL | fmfile.STRIPPART), (fmfile.SK, fmfile.STRIPS)):
-            for seg in range(5):
-                F.append(dict(entry="h_file_trunc", args=[ver, feat, 1, seg, 5], budget=90, mod="fmfile", huge_alloc_is_violation=True, throw_is_violation=True, stubs=["bsphere"]))
+            for seg in range(8):
+                F.append(dict(entry="h_file_trunc", args=[ver, feat, 1, seg, 8], budget=120, mod="fmfile", huge_alloc_is_violation=True, throw_is_violation=True, stubs=["bsphere"]))
     else:
         # thorough: the quick model list of the F-model family, 8 truncation ranges each, 300 s per range
         # (all 44 thorough models x 8 ranges x 1200 s would take hours)
